@@ -706,6 +706,8 @@ def apply_contract(eng, c, mod, fdef, args, kwargs, st, node):
     env2['result'] = result
     for gname, gk in (c.ghost.get('return_kinds') or {}).items():
         env2[gname] = fresh_of_kind(eng, st, parse_kind(gk), 'ghost_' + gname)
+        # ghost out-parameters of the callee are visible to the caller's contract clauses as ghost_<callee>_<name>
+        st.env['ghost_%s_%s' % (short.split('#')[0], gname)] = env2[gname]
     for label, clause in c.labelled(c.ensures, 'post'):
         t = eval_bool(eng, clause, env2, st, old=(env, old_heap))
         st.assume(t)
